@@ -24,8 +24,8 @@ SHAPES = [
     ("service_call_upgraded", "varlink/src/lib.rs", r"fn call_upgraded\(\s*&self,\s*iface: &str,", ["C02", "C03"]),
     ("call_impl", "varlink/src/lib.rs", r"impl<'a> Call<'a> \{", ["C01", "C02", "C03", "C04", "C05"]),
     ("calltrait_for_call", "varlink/src/lib.rs", r"impl CallTrait for Call<'_> \{", ["C04", "C05"]),
-    ("methodcall_impl", "varlink/src/lib.rs", r"impl<MRequestParameters, MReply, MError> MethodCall<MRequestParameters, MReply, MError>\s*where", ["C04", "C05", "C07", "C08", "C20"]),
-    ("methodcall_iter", "varlink/src/lib.rs", r"impl<MRequest, MReply, MError> Iterator for MethodCall<MRequest, MReply, MError>\s*where", ["C05", "C07", "C20"]),
+    ("methodcall_impl", "varlink/src/lib.rs", r"impl<MRequestParameters, MReply, MError> MethodCall<MRequestParameters, MReply, MError>\s*where", ["C04", "C05", "C07", "C08", "C18", "C20"]),
+    ("methodcall_iter", "varlink/src/lib.rs", r"impl<MRequest, MReply, MError> Iterator for MethodCall<MRequest, MReply, MError>\s*where", ["C05", "C07", "C18", "C20"]),
     ("errorkind_from_reply", "varlink/src/lib.rs", r"impl From<Reply> for ErrorKind \{", ["C07", "C20"]),
     ("connection_impl", "varlink/src/lib.rs", r"impl Connection \{", ["C07", "C16", "C18"]),
     ("listen", "varlink/src/server.rs", r"pub fn listen<S: \?Sized \+ AsRef<str>, H: crate::ConnectionHandler \+ Send \+ Sync \+ 'static>\(", ["C01", "C02", "C06", "C13", "C14", "C15"]),
@@ -45,6 +45,18 @@ SHAPES = [
     ("cli_watchclose", "varlink-cli/src/watchclose_epoll.rs", None, ["C18"]),
     ("certification_main", "varlink-certification/src/main.rs", None, ["C19"]),
     ("ping_example", "examples/ping/src/main.rs", None, ["C02", "C13"]),
+    ("stringhashset_impl", "varlink/src/lib.rs", r"impl StringHashSet \{", ["C08", "C17", "C19"]),
+    ("connection_drop", "varlink/src/lib.rs", r"impl Drop for Connection \{", ["C07", "C16", "C18"]),
+    ("listener_drop", "varlink/src/server.rs", r"impl Drop for Listener \{", ["C15", "C16"]),
+    # inventories: the headers of every impl block that mentions the type. A new trait impl (Drop, Deref, a hand-written
+    # Serialize) or a second inherent block changes what the pinned functions mean without touching their text.
+    ("inv_methodcall", "varlink/src/lib.rs", ("inventory", "MethodCall"), ["C04", "C05", "C07", "C08", "C20"]),
+    ("inv_connection", "varlink/src/lib.rs", ("inventory", "Connection"), ["C07", "C16", "C18"]),
+    ("inv_call", "varlink/src/lib.rs", ("inventory", "Call"), ["C01", "C02", "C03", "C04", "C05"]),
+    ("inv_service", "varlink/src/lib.rs", ("inventory", "VarlinkService"), ["C01", "C02", "C03", "C06", "C13"]),
+    ("inv_stringhashset", "varlink/src/lib.rs", ("inventory", "StringHashSet"), ["C08", "C17", "C19"]),
+    ("inv_wire_structs", "varlink/src/lib.rs", ("inventory", "(?:Request|Reply|ServiceInfo|ErrorKind|Error)"), ["C06", "C07", "C17"]),
+    ("inv_server", "varlink/src/server.rs", ("inventory", "(?:ThreadPool|Worker|Listener)"), ["C13", "C14", "C15", "C16"]),
 ]
 
 
@@ -64,6 +76,10 @@ def digest(root):
         src = open(p, encoding="utf-8").read()
         if header is None:
             body = src
+        elif isinstance(header, tuple):
+            code = re.sub(r"/\*.*?\*/", "", re.sub(r"//[^\n]*", "", src), flags=re.S)
+            heads = re.findall(r"(?m)^\s*((?:unsafe\s+)?impl\b[^{;]*?\b%s\b[^{;]*?)\{" % header[1], code)
+            body = "\n".join(sorted(norm(h) for h in heads))
         else:
             m = re.search(header, src)
             if not m:
